@@ -5,12 +5,14 @@ from props._fa_common import TRUSTED, ASSUMPTIONS, TECHNIQUE
 
 PROP = "C03"
 LEVEL = "proof"
-THEOREMS = {"Properties.C03": ["C03_reverse", "C03_intersection", "C03_complement", "C03_union_ref", "C03_concat_ref", "C03_star_ref", "C03_difference", "C03_intersection_total"]}
+THEOREMS = {"Properties.C03": ["C03_reverse", "C03_intersection", "C03_complement", "C03_union_ref", "C03_concat_ref", "C03_star_ref", "C03_difference", "C03_intersection_total",
+                             "C03_union_code_path", "C03_concatenate_code_path", "C03_kleene_star_code_path"]}
 LEVEL_TEXT = ("Coq theorems (no axioms): reverse, the product construction and complement-after-determinisation compute exactly the mirror image, "
               "intersection and complement for all automata; difference is their composition. Every automaton pyformlang returns is compared with the "
-              "model's construction by the proved-exact equivalence checker. union/concatenate/kleene_star (implemented through to_regex) are covered "
-              "by the correspondence on all words up to a bound with the certified accepts (validation, not proof).")
-LEVEL_NOTE = ("Trusted: Coq kernel; hand-written model validated by correspondence; Python harness. Rational operations have no theorem here (they inherit C06).")
+              "model's construction by the proved-exact equivalence checker. union/concatenate/kleene_star follow the code path to_regex -> Regex "
+              "combinator -> to_epsilon_nfa; the composition of the proved models of the two conversions has the intended language for all operands "
+              "(C03_*_code_path), and every automaton pyformlang returns is decided language-equal to the proved reference constructions.")
+LEVEL_NOTE = ("Trusted: Coq kernel; hand-written model validated by correspondence; Python harness. The text assembly inside to_regex is abstracted (see C06).")
 RULE = ("random epsilon-NFAs and ordered pairs (overlapping/disjoint alphabets, same state names in both operands, same object twice) x "
         "{reverse, get_complement, get_intersection, get_difference and their operator forms, union, concatenate, kleene_star}; "
         "non-trivial = at least 2 transitions, a start and a final state in the first operand")
